@@ -14,12 +14,12 @@
     [C17_exit_nopath], [C17_exit_is_save], [C17_exit_exception], [C17_with_twice], [C17_wl_save], [C17_lines_emit],
     [C17_state_with_block]) is a MODEL of [__init__] / [__enter__] / [__exit__]: facts about the small [wl_file]
     state machine of Model/Save.v ([wl_init], [wl_enter], [wl_append], [wl_exit], [wl_save], [ws_file], [ws_clear]),
-    which follow by unfolding its definitions and which are NOT evaluated by the Coq side of the correspondence
-    check (REVIEW2 N4): Corr/CheckPure.v evaluates only [save filename None recs], [decode_file] and
-    [str_worklist].  That this state machine is what the library does on entering and leaving a block (record
-    list cleared on enter, file written on exit also when an exception leaves the block, a refused save leaves
-    the old file, no residue of a longer old file) is compared by the Python oracle of the `save` suite
-    (harness/suites/pure.py, oracle_C17; values of "via": `with`, `with_exc`, `with_save_other`, `reenter_foreign`), as C11 does for the report
+    which follow by unfolding its definitions.  Since REVIEW2 (N4) the state machine IS evaluated by the Coq side
+    of the correspondence check: case kind [KWith] of Corr/CheckPure.v runs [wl_init], [wl_append] (stale records
+    before the block), [wl_enter], [wl_append], [wl_exit] (with and without an exception, once or twice with a foreign
+    write to the file in between) and compares the file it predicts with the bytes the library left (suite `save`,
+    values of "via": `with`, `with_exc`, `reenter_foreign`); `with_save_other` ([wl_save] to another path inside
+    the block) is compared by the Python oracle only, as C11 does for the report
     text.  There is no `enter` operation in [Program.op], so no theorem relates a block to [run].
 
     Latin-1 (modelling assumption, no theorem): records are [string]s, i.e. lists of [ascii]; every character
@@ -106,12 +106,9 @@ Print Assumptions C17_resave.
 
 (** ** the [with] block
 
-    MODEL-ONLY (REVIEW2 N4): every theorem of this section is a fact about the [wl_file] state machine of
-    Model/Save.v, obtained by unfolding [wl_enter] / [wl_append] / [wl_exit] (the flag [raised] is ignored by
-    definition); none of these functions is evaluated by the correspondence check.  The with-block behaviour of
-    the LIBRARY is compared with this model by the Python oracle of the `save` suite (cases `with`, `with_exc`,
-    `with_save_other`, `reenter_foreign`).  What the Coq side of the check does evaluate is [save], whose
-    result these theorems reduce to ([C17_exit_is_save], [C17_wl_save], [C17_overwrite]). *)
+    Every theorem of this section is a fact about the [wl_file] state machine of Model/Save.v, obtained by
+    unfolding [wl_enter] / [wl_append] / [wl_exit] (the flag [raised] is ignored by definition).  The state machine
+    is tied to the library by the [KWith] cases of the correspondence check (see the header). *)
 
 (** construction and entering start from an empty record list and keep the path *)
 Theorem C17_init : forall path, wf_recs (wl_init path) = [] /\ wf_path (wl_init path) = path.
